@@ -79,6 +79,9 @@ def deviations(b):
 
 def run(chk):
     q = chk.quick
+    # (B1) System end to end on the exact field model, random-oracle challenges (MC_Protocol: Completeness, RoleSync, FSBinding,
+    # RejectsInvalid, MegaIdentity), with non-vacuity probes
+    vlib.protocol_mc(chk)
     progs = []
     for b in bases(chk.seed):
         progs.append({"id": "bind-%s-honest" % b["id"], "p": b["p"], "seed": b["seed"], "expect_p": "ok", "expect_v": "ok"})
